@@ -1,4 +1,5 @@
 import GoSQLXModel.Model.Segments
+import GoSQLXModel.Proofs.RecoveryPositions
 import GoSQLXModel.Gen.Structure
 /-!
 # C12 — Recovery parsing terminates, agrees with strict parsing, loses no good statement
@@ -12,6 +13,9 @@ All three clauses are theorems about the recovery loop over an arbitrary stateme
 frame assumptions (`fa2`: never moves backwards, `fa3`: success consumes); the assumptions and the
 segment hypotheses are decidable and are checked on every generated case against the real
 parseStatement (hook `VerifStmtAt`).
+`reported_positions_are_tokens_in_order` (Proofs/RecoveryPositions.lean) holds without the segment hypotheses, for
+every input and fuel: returned statements and reported errors are strictly increasing positions of real tokens, and
+no position is both a statement and an error (nothing is reported twice, nothing points past the input).
 -/
 namespace GoSQLXModel.Props.C12
 open GoSQLXModel GoSQLXModel.Loops
@@ -38,6 +42,11 @@ theorem recovery_iff_ok (I : Input) (f : Nat) (l : List Nat) (h : parseLoop I fa
 theorem recovery_iff_err (I : Input) (f c p : Nat) (h : parseLoop I false f 0 [] = some (.err c p))
     (hm : more I p = true) (f' : Nat) (r) (hr : recLoop I f' 0 [] [] = some r) : r.2 ≠ [] :=
   recovery_error_of_parse_err I f c p h hm f' r hr
+
+theorem reported_positions_are_tokens_in_order (I : Input) (hF : Frame I) (f : Nat) (r : List Nat × List Nat)
+    (h : recLoop I f 0 [] [] = some r) :
+    r.1.Pairwise (· < ·) ∧ r.2.Pairwise (· < ·) ∧ (∀ x ∈ r.1, x < I.n) ∧ (∀ x ∈ r.2, x < I.n) ∧ ∀ x ∈ r.1, x ∉ r.2 :=
+  recovery_positions I hF f r h
 
 /-- **C12.segments** -/
 theorem segments (I : Input) (segs : List Seg) (hc : Chain I 0 segs) :
